@@ -20,54 +20,116 @@ Proof. exact img_write_outside. Qed.
 (* ---- find_free_entries: where a new run of [num] slots goes.  [free_spot ss num p pre mid post] says: ss = pre ++ mid ++ post,
    p = |pre|, no end marker in pre, mid are deleted slots, and either |mid| = num (a run of deleted slots is reused) or
    |mid| < num and post is empty or starts with an end marker (the run is put at the end of the used part, over the
-   trailing deleted slots).  No live slot is inside [mid]; for a fixed root there is no capacity check here. *)
-Theorem C01_find_free_entries_spec : forall ss num, 1 <= num -> len_N ss < 134217728 ->
-  exists p pre mid post, find_free_entries ss num = Ok p /\ free_spot ss num p pre mid post.
+   trailing deleted slots).  No live slot is inside [mid].  The call fails in exactly one situation: the directory is a
+   FIXED root (FAT12/16) and the run would end behind the last slot of the region - NotEnoughSpace, before anything is
+   written (src/dir.rs since 13fd5fe; before, the position was returned and the write failed half-way: D5). *)
+Theorem C01_find_free_entries_spec : forall k ss num, 1 <= num -> len_N ss < 134217728 ->
+  exists p pre mid post, free_spot ss num p pre mid post /\
+    find_free_entries k ss num = if is_fixed k && (len_N ss <? p + num) then Err ENotEnoughSpace else Ok p.
 Proof. exact find_free_entries_spec. Qed.
 Example C01_find_free_entries_ex :
-  find_free_entries [ex_del; ex_del; ex_live; ex_del; ex_del; ex_del; zero_slot] 3 = Ok 3 /\
-  find_free_entries [ex_del; ex_del; ex_live; ex_del; ex_del; zero_slot; zero_slot] 3 = Ok 3 /\
-  find_free_entries [ex_live; ex_live] 3 = Ok 2 /\ find_free_entries [ex_live; zero_slot; ex_del; ex_del; ex_del] 3 = Ok 1.
+  find_free_entries FixedRoot [ex_del; ex_del; ex_live; ex_del; ex_del; ex_del; zero_slot] 3 = Ok 3 /\
+  find_free_entries FixedRoot [ex_del; ex_del; ex_live; ex_del; ex_del; zero_slot; zero_slot] 3 = Ok 3 /\
+  find_free_entries FixedRoot [ex_del; ex_del; ex_live; ex_del; ex_del; zero_slot] 3 = Ok 3 /\
+  find_free_entries FixedRoot [ex_del; ex_del; ex_live; ex_del; ex_del; zero_slot] 4 = Err ENotEnoughSpace /\
+  find_free_entries (Chained 16) [ex_del; ex_del; ex_live; ex_del; ex_del; zero_slot] 4 = Ok 3 /\
+  find_free_entries FixedRoot [ex_live; ex_live] 3 = Err ENotEnoughSpace /\ find_free_entries (Chained 16) [ex_live; ex_live] 3 = Ok 2 /\
+  find_free_entries FixedRoot [ex_live; zero_slot; ex_del; ex_del; ex_del] 3 = Ok 1 /\
+  (* a run of deleted slots that reaches the end of the region is reused without the capacity test *)
+  find_free_entries FixedRoot [ex_live; ex_del; ex_del; ex_del] 3 = Ok 1.
 Proof. vm_compute. repeat split. Qed.
 
 (* (write_entry_refines, mark_deleted_refines, rename_slots_refines - the base refinement theorems with the frame
    conditions - are stated in Props/C03.v: they are also the preservation of the C03 slot clauses.) *)
 
-(* ---- failed calls.  The full statement
-       forall k free ss n e x ss', write_entry k free ss n e = (Err x, ss') -> ss' = ss
-   is FALSE for the code as it is (recorded findings D5/D20): see C01_failed_write_unchanged_refuted.
-   Proved: a rejected name changes nothing (_partial); and outside the known class (the directory can hold the run at the
-   chosen place) every call either succeeds or is a rejected name that changed nothing - no WriteZero, no
-   NotEnoughSpace, no Panic. *)
+(* ---- failed calls.  write_entry has exactly four outcomes (C01_write_entry_cases): success; a rejected name (nothing
+   changed); NotEnoughSpace of a fixed root that cannot take the run (nothing changed: 13fd5fe, formerly D5/D20 - WriteZero
+   after a partial run); NotEnoughSpace of a chain-backed directory that cannot grow, after a proper prefix of the run was
+   written (the remaining recorded finding "nospace during entry write": C01_failed_write_unchanged_chain_refuted).
+   No Panic, no WriteZero.  Hence: in a FIXED ROOT a call that does not succeed changes nothing
+   (C01_failed_write_fixed_root_unchanged); in ANY directory it leaves every slot that was in use and the decoded entries
+   and labels as they were (C01_failed_write_keeps_entries). *)
 Theorem C01_failed_write_unchanged_partial : forall k free ss n e x,
   validate_long_name n = Err x -> write_entry k free ss n e = (Err x, ss).
 Proof. exact failed_write_unchanged_partial. Qed.
+Theorem C01_write_entry_cases : forall k free ss n e, len_N ss < 134217728 ->
+  (exists range ss', write_entry k free ss n e = (Ok range, ss')) \/
+  (exists x, validate_long_name n = Err x /\ write_entry k free ss n e = (Err x, ss)) \/
+  (k = FixedRoot /\ validate_long_name n = Ok tt /\ write_entry k free ss n e = (Err ENotEnoughSpace, ss) /\
+   exists p pre mid post, free_spot ss (len_N (entry_run n e)) p pre mid post /\ len_N ss < p + len_N (entry_run n e)) \/
+  (exists cs p pre mid post j, k = Chained cs /\ validate_long_name n = Ok tt /\
+     free_spot ss (len_N (entry_run n e)) p pre mid post /\
+     (length (mid ++ post) <= j < length (entry_run n e))%nat /\
+     ~ can_hold k free (length ss - N.to_nat p) (length (entry_run n e)) /\
+     find_free_entries k ss (len_N (entry_run n e)) = Ok p /\
+     write_entry k free ss n e = (Err ENotEnoughSpace, pre ++ firstn j (entry_run n e))).
+Proof. exact write_entry_cases. Qed.
+(* a failed write_entry on a fixed root changes nothing, and is never WriteZero (replaces the refutation of D5) *)
+Theorem C01_failed_write_fixed_root_unchanged : forall free ss n e r ss', len_N ss < 134217728 ->
+  write_entry FixedRoot free ss n e = (r, ss') -> (forall range, r <> Ok range) ->
+  ss' = ss /\ exists x, r = Err x /\ x <> EWriteZero /\ (x = ENotEnoughSpace \/ validate_long_name n = Err x).
+Proof. exact write_entry_fixed_root_full_unchanged. Qed.
 Theorem C01_failed_write_unchanged : forall k free ss n e,
   len_N ss < 134217728 -> ~ write_known_class k free ss n e ->
   (exists range ss', write_entry k free ss n e = (Ok range, ss')) \/
-  (exists x, validate_long_name n = Err x /\ write_entry k free ss n e = (Err x, ss)).
+  (exists x, validate_long_name n = Err x /\ write_entry k free ss n e = (Err x, ss)) \/
+  (k = FixedRoot /\ write_entry k free ss n e = (Err ENotEnoughSpace, ss)).
 Proof. exact failed_write_unchanged. Qed.
-Theorem C01_failed_write_unchanged_refuted :
+Theorem C01_failed_write_keeps_entries : forall k free fat32 ss n e es ls r ss',
+  dir_scan ss 0 [] fat32 = (es, ls, []) -> len_N ss < 134217728 ->
+  write_entry k free ss n e = (r, ss') -> (forall range, r <> Ok range) ->
+  (exists x, r = Err x /\ x <> EWriteZero) /\
+  (k = FixedRoot -> ss' = ss) /\
+  (exists iss, dir_scan ss' 0 [] fat32 = (es, ls, iss) /\ (iss = [] \/ exists i, iss = [DOrphanLfn i])) /\
+  (length ss <= length ss')%nat /\
+  (forall i s, nth_error ss i = Some s -> ~ free_slot s -> nth_error ss' i = Some s).
+Proof. exact failed_write_keeps_entries. Qed.
+(* the remaining known class: a chain-backed directory that cannot grow is left with an orphan long-name run *)
+Theorem C01_failed_write_unchanged_chain_refuted :
   exists k free ss n e x ss',
     write_entry k free ss n e = (Err x, ss') /\ ss' <> ss /\
     len_N ss < 134217728 /\ sfn_live e /\ write_known_class k free ss n e /\
     dir_scan ss 0 [] false = ([], [], []) /\ dir_scan ss' 0 [] false = ([], [], [DOrphanLfn 2]).
-Proof. exact failed_write_unchanged_refuted. Qed.
-(* the same for rename (D20): the source is deleted first; a failing write leaves the directory without the source entry *)
-Theorem C01_rename_failed_unchanged_refuted :
-  exists ss src dst ss',
-    rename_in_dir upper_ascii oem_decode_lossy FixedRoot 0 ss src dst = (Err EWriteZero, ss') /\
-    map e_lfn (fst (fst (dir_scan ss 0 [] false))) = [ex_name1; [98]] /\ snd (dir_scan ss 0 [] false) = [] /\
-    map e_lfn (fst (fst (dir_scan ss' 0 [] false))) = [ex_name1] /\ snd (dir_scan ss' 0 [] false) = [DOrphanLfn 8].
-Proof. exact rename_failed_unchanged_refuted. Qed.
+Proof. exact failed_write_unchanged_chain_refuted. Qed.
+(* the same for rename (D20, fixed by d9f4de8: the new entry is written first, the source is deleted afterwards): a rename
+   within one directory that does not succeed - for whatever reason - leaves the decoded entries (the source among them) and
+   labels exactly as they were and changes no slot that was in use; in a fixed root it changes nothing at all *)
+Theorem C01_rename_failed_source_kept : forall upper oem k free fat32 ss src dst es ls r ss',
+  dir_scan ss 0 [] fat32 = (es, ls, []) -> len_N ss < 134217728 ->
+  rename_in_dir upper oem k free ss src dst = (r, ss') -> r <> Ok tt ->
+  (k = FixedRoot -> ss' = ss) /\
+  (exists iss, dir_scan ss' 0 [] fat32 = (es, ls, iss) /\ (iss = [] \/ exists i, iss = [DOrphanLfn i])) /\
+  (length ss <= length ss')%nat /\
+  (forall i s, nth_error ss i = Some s -> ~ free_slot s -> nth_error ss' i = Some s).
+Proof. exact rename_failed_source_kept. Qed.
+(* a move into another directory that does not succeed: the source directory is byte-identical *)
+Theorem C01_rename_across_failed_source_unchanged : forall upper oem kd freed fat32 src_ss dst_ss src dst es ls r src' dst',
+  dir_scan dst_ss 0 [] fat32 = (es, ls, []) -> len_N dst_ss < 134217728 ->
+  rename_across upper oem kd freed src_ss dst_ss src dst = (r, (src', dst')) -> r <> Ok tt ->
+  src' = src_ss /\ (kd = FixedRoot -> dst' = dst_ss) /\
+  (exists iss, dir_scan dst' 0 [] fat32 = (es, ls, iss) /\ (iss = [] \/ exists i, iss = [DOrphanLfn i])) /\
+  (forall i s, nth_error dst_ss i = Some s -> ~ free_slot s -> nth_error dst' i = Some s).
+Proof. exact rename_across_failed_source_unchanged. Qed.
+(* ex_dir2 is an 8-slot fixed root with 5 slots in use.  A 27-character name needs 4 slots: NotEnoughSpace, nothing written
+   (before 13fd5fe: 3 slots written, then WriteZero); renaming "b" to a 53-character name (6 slots) fails the same way and
+   "b" is still there (before d9f4de8 it was gone); a chain-backed directory without a free cluster keeps the partial run *)
 Example C01_failed_write_ex :
   write_entry FixedRoot 0 ex_dir1 [47] (ex_sfn ex_alias2) = (Err EUnsupportedFileNameCharacter, ex_dir1) /\
   write_entry FixedRoot 0 ex_dir1 [] (ex_sfn ex_alias2) = (Err EInvalidFileNameLength, ex_dir1) /\
   ~ write_known_class FixedRoot 0 ex_dir1 [98] (ex_sfn ex_alias2) /\
+  write_entry FixedRoot 0 ex_dir2 (repeat_N 99 27) (ex_sfn ex_alias) = (Err ENotEnoughSpace, ex_dir2) /\
+  fst (write_entry FixedRoot 0 ex_dir2 (repeat_N 99 26) (ex_sfn ex_alias)) = Ok (5, 8) /\
+  rename_in_dir upper_ascii oem_decode_lossy FixedRoot 0 ex_dir2 [98] (repeat_N 99 53) = (Err ENotEnoughSpace, ex_dir2) /\
+  map e_lfn (fst (fst (dir_scan ex_dir2 0 [] false))) = [ex_name1; [98]] /\ snd (dir_scan ex_dir2 0 [] false) = [] /\
+  (let r := rename_in_dir upper_ascii oem_decode_lossy (Chained 8) 0 ex_dir2 [98] (repeat_N 99 53) in
+   fst r = Err ENotEnoughSpace /\ firstn 5 (snd r) = firstn 5 ex_dir2 /\ length (snd r) = 8%nat /\
+   map e_lfn (fst (fst (dir_scan (snd r) 0 [] false))) = [ex_name1; [98]] /\ snd (dir_scan (snd r) 0 [] false) = [DOrphanLfn 8]) /\
   fst (write_entry (Chained 16) 0 (firstn 5 ex_dir2) [99] (ex_sfn ex_alias2)) = Err ENotEnoughSpace.
 Proof.
+  split; [vm_compute; reflexivity|]. split; [vm_compute; reflexivity|]. split; [intros [cs [p [C _]]]; discriminate|].
+  split; [vm_compute; reflexivity|]. split; [vm_compute; reflexivity|]. split; [vm_compute; reflexivity|].
   split; [vm_compute; reflexivity|]. split; [vm_compute; reflexivity|]. split; [|vm_compute; reflexivity].
-  intros [p [H1 H2]]. vm_compute in H1. injection H1 as <-. apply H2. vm_compute. repeat constructor.
+  vm_compute. repeat split.
 Qed.
 
 (* ---- create_file / create_dir in one directory: existence check with the library's own matching (DirEntry::eq_name over
@@ -104,7 +166,8 @@ Proof. vm_compute. repeat split. Qed.
 
 (* ---- dir_refines_map: the decoding of one directory as a finite map (key = raw short name, [dir_map]) commutes with the
    library's create (create_file / create_dir: existence check, alias, write), remove (find by the library's own matching,
-   deletion loop) and rename within the directory (find, existence check, alias, delete, write).  A rename whose
+   deletion loop) and rename within the directory (find, existence check, alias, write, delete - in this order since
+   d9f4de8).  A rename whose
    destination name resolves to the source entry itself is a no-op ONLY for the identical spelling ([has_exact_name],
    spelled out by C01_has_exact_name_spec); for another case of the long name, or for the entry's own alias, the entry is
    rewritten: same key (raw short name), new long name, same attributes/size/cluster (D22, fixed in 46d26a5; the premise
@@ -196,13 +259,14 @@ Proof.
   split; [|vm_compute; split; reflexivity].
   vm_compute. constructor; [|constructor; [|constructor]]; cbn [In]; [intros [C|[]]; discriminate|intros []].
 Qed.
-(* a CASE-ONLY rename, and a rename onto the entry's own alias (D22, fixed): ex_dir2 holds "hello world.txt" (alias
-   HELLOW~1.TXT, slots 0-2) and "b" (alias B, slots 3-4).
+(* a CASE-ONLY rename, and a rename onto the entry's own alias (D22, fixed): ex_dir2 (8 slots) holds "hello world.txt"
+   (alias HELLOW~1.TXT, slots 0-2) and "b" (alias B, slots 3-4); slots 5-7 are unused.
    "b" -> "B": the destination resolves to the source entry itself, which is stored as "b": not the identical spelling, so
-   the entry is rewritten (here into the slots just freed) with the long name "B" and the same short name; all other
-   slots are untouched.  "hello world.txt" -> "HELLO WORLD.TXT" likewise; "hello world.txt" -> "HELLOW~1.TXT" (its alias)
-   makes the alias spelling the long name (now 1 long-name slot instead of 2: the entry is rewritten at slots 0-1, slot 2 stays
-   deleted).  In every case the short names - the keys of the map - are as before, and no decoder issue appears. *)
+   the entry is rewritten with the long name "B" and the same short name - the new entry is written FIRST, into the free
+   slots 5-6, then slots 3-4 are deleted; all other slots are untouched.  "hello world.txt" -> "HELLO WORLD.TXT" likewise
+   (3 slots: exactly the room left, slots 5-7; the entry now comes after "b"); "hello world.txt" -> "HELLOW~1.TXT" (its
+   alias) makes the alias spelling the long name (slots 5-6).  In every case the short names - the keys of the map - are
+   as before, and no decoder issue appears. *)
 Example C01_rename_case_only_ex :
   let scan ss := (map e_lfn (fst (fst (dir_scan ss 0 [] false))), map e_sfn (fst (fst (dir_scan ss 0 [] false))),
                   snd (dir_scan ss 0 [] false)) in
@@ -213,24 +277,27 @@ Example C01_rename_case_only_ex :
               Lfn.ev_lfn ev = [98] /\ has_exact_name ev [66] = false /\ has_exact_name ev [98] = true) /\
   (let r := ren [98] [66] in
    fst r = Ok tt /\ snd r <> ex_dir2 /\ scan (snd r) = ([ex_name1; [66]], [ex_alias1; ex_alias2], []) /\
-   firstn 3 (snd r) = firstn 3 ex_dir2 /\ nth 4 (snd r) [] = nth 4 ex_dir2 [] /\ skipn 5 (snd r) = skipn 5 ex_dir2) /\
+   firstn 3 (snd r) = firstn 3 ex_dir2 /\ skipn 7 (snd r) = skipn 7 ex_dir2 /\
+   map (fun s => byte_at s 0) (snd r) = [66; 1; 72; 229; 229; 65; 66; 0]) /\
   (let r := ren ex_name1 [72; 69; 76; 76; 79; 32; 87; 79; 82; 76; 68; 46; 84; 88; 84] in
    fst r = Ok tt /\
-   scan (snd r) = ([[72; 69; 76; 76; 79; 32; 87; 79; 82; 76; 68; 46; 84; 88; 84]; [98]], [ex_alias1; ex_alias2], []) /\
-   nth 2 (snd r) [] = nth 2 ex_dir2 []) /\
+   scan (snd r) = ([[98]; [72; 69; 76; 76; 79; 32; 87; 79; 82; 76; 68; 46; 84; 88; 84]], [ex_alias2; ex_alias1], []) /\
+   map (fun s => byte_at s 0) (snd r) = [229; 229; 229; 65; 66; 66; 1; 72]) /\
   (let r := ren ex_name1 [72; 69; 76; 76; 79; 87; 126; 49; 46; 84; 88; 84] in
    fst r = Ok tt /\
-   scan (snd r) = ([[72; 69; 76; 76; 79; 87; 126; 49; 46; 84; 88; 84]; [98]], [ex_alias1; ex_alias2], []) /\
-   map (fun s => byte_at s 0) (snd r) = [65; 72; 229; 65; 66; 0; 0; 0]) /\
+   scan (snd r) = ([[98]; [72; 69; 76; 76; 79; 87; 126; 49; 46; 84; 88; 84]], [ex_alias2; ex_alias1], []) /\
+   map (fun s => byte_at s 0) (snd r) = [229; 229; 229; 65; 66; 65; 72; 0]) /\
   (* the identical spelling: nothing happens *)
   ren [98] [98] = (Ok tt, ex_dir2) /\
   (* an entry WITHOUT a long name (short slot "B" only) is stored as "B": "b" -> "B" is the identical spelling (no-op),
-     "B" -> "b" gives it the long name "b" and keeps the short name *)
-  (let d := [ex_live; zero_slot] in
+     "B" -> "b" gives it the long name "b" and keeps the short name; in a root with a single free slot the same rename is
+     refused (the new entry needs 2 slots while the old one is still there) and nothing changes *)
+  (let d := [ex_live; zero_slot; zero_slot; zero_slot] in
    scan d = ([[]], [ex_alias2], []) /\
    rename_in_dir upper_ascii oem_decode_lossy FixedRoot 0 d [98] [66] = (Ok tt, d) /\
-   let r := rename_in_dir upper_ascii oem_decode_lossy FixedRoot 0 d [66] [98] in
-   fst r = Ok tt /\ scan (snd r) = ([[98]], [ex_alias2], [])).
+   (let r := rename_in_dir upper_ascii oem_decode_lossy FixedRoot 0 d [66] [98] in
+    fst r = Ok tt /\ scan (snd r) = ([[98]], [ex_alias2], []) /\ map (fun s => byte_at s 0) (snd r) = [229; 65; 66; 0]) /\
+   rename_in_dir upper_ascii oem_decode_lossy FixedRoot 0 [ex_live; zero_slot] [66] [98] = (Err ENotEnoughSpace, [ex_live; zero_slot])).
 Proof.
   cbn zeta. split; [vm_compute; reflexivity|]. split.
   { eexists. split; [vm_compute; reflexivity|]. vm_compute. repeat split. }
@@ -242,9 +309,13 @@ Qed.
 Print Assumptions C01_image_write_frame.
 Print Assumptions C01_find_free_entries_spec.
 Print Assumptions C01_failed_write_unchanged_partial.
+Print Assumptions C01_write_entry_cases.
+Print Assumptions C01_failed_write_fixed_root_unchanged.
 Print Assumptions C01_failed_write_unchanged.
-Print Assumptions C01_failed_write_unchanged_refuted.
-Print Assumptions C01_rename_failed_unchanged_refuted.
+Print Assumptions C01_failed_write_keeps_entries.
+Print Assumptions C01_failed_write_unchanged_chain_refuted.
+Print Assumptions C01_rename_failed_source_kept.
+Print Assumptions C01_rename_across_failed_source_unchanged.
 Print Assumptions C01_create_entry_refines.
 Print Assumptions C01_dir_refines_map.
 Print Assumptions C01_remove_entry_insane_refuted.
